@@ -31,7 +31,7 @@ m = {
     "setup_cmd": "./setup.sh",
     "hooks": {
         "guard": "--cfg wtransport_verif",
-        "enable": "RUSTFLAGS=\"--cfg wtransport_verif\" cargo build --offline (set by lib/vcheck.py for every harness build); NOTE: no hook or instrumentation was added to /repo in this revision -- every harness uses public APIs only (wtransport features quinn, dangerous-configuration, self-signed)",
+        "enable": "RUSTFLAGS=\"--cfg wtransport_verif\" cargo build --offline (set by lib/vcheck.py for every harness build); hooks (add-only, all behind #[cfg(wtransport_verif)]): module wtransport::verif re-exporting the driver's crate-private SharedResult/bichannel, and a process-wide log of hand-off events appended to by the driver worker, its per-stream tasks and Driver::accept_uni/accept_bi; used by the wire harness suites 'trace' and 'cell'; every other suite uses public APIs only (wtransport features quinn, dangerous-configuration, self-signed)",
         "baseline_off_cmd": "cd /repo && cargo test --workspace --no-fail-fast --offline",
         "source_commits": hooks_commits,
         "add_only": True,
